@@ -64,8 +64,20 @@ pub fn cases(r: &mut Report, rng: &mut Rng, n: usize) {
 		r.case("scope", format!("CScopePrint {} {}", SCOPE_CTORS[scope_idx(s)], gs(&p)));
 		match DependencyScope::from_str(&p) { Ok(b) if b == s => {}, other => r.violation(format!("DependencyScope {s:?}: from_str(to_string) = {other:?}"), format!("property C19\nscope {p}\n")) }
 	}
-	for s in ["compile", "runtime", "test", "system", "provided", "import", "Compile", "", "compile ", "tes", "testx"] {
+	// names, near misses (case, surrounding blanks / TAB / LF / CR LF / NBSP, prefixes, extensions): what from_str accepts must print as the very text
+	let mut texts: Vec<String> = ["import", "Compile", "", "tes", "testx", "COMPILE", "compile,runtime", "compile:", "Test"].iter().map(|x| x.to_string()).collect();
+	for name in ["compile", "runtime", "test", "system", "provided"] {
+		texts.push(name.to_string());
+		for (pre, post) in [("", " "), (" ", ""), ("", "\n"), ("", "\r\n"), ("\t", ""), ("", "\u{a0}"), (" ", " "), ("", "\u{2003}")] { texts.push(format!("{pre}{name}{post}")); }
+	}
+	for s in texts.iter().map(|x| x.as_str()) {
 		let got = DependencyScope::from_str(s).ok();
+		if let Some(x) = got {
+			if format!("{x}") != s {
+				r.violation("DependencyScope::from_str accepts a text that is not the scope's name (from_str(t) = Ok(s) but to_string(s) != t: the documented round trip between Display and FromStr fails from the text's side, two different texts of a resolved dependency read as one)".into(),
+					format!("property C19\nscope text {s:?}\nparsed {x:?}, printed {:?}\n", format!("{x}")));
+			}
+		}
 		r.case("scope", format!("CScopeParse {} {}", gs(s), gres(got.map(|x| SCOPE_CTORS[scope_idx(x)].to_string()))));
 		r.eval(&format!("scope {s}"), got.is_some());
 	}
@@ -139,5 +151,77 @@ pub fn cases(r: &mut Report, rng: &mut Rng, n: usize) {
 		let mtext: String = m.into_iter().collect();
 		let mp = FoundDependency::try_from(mtext.as_str()).ok();
 		r.case("found-mutated", format!("CFoundParse {} {}", gs(&mtext), gres(mp.as_ref().map(g_found))));
+	}
+}
+
+/// The Maven repository layout's rule for the directory of a version, written as a matcher from the END of the text
+/// (independent of the crate's two rsplit_once and of pomgen::base_version's rsplitn): a version ending in
+/// `-` 8 digits `.` 6 digits `-` 1+ digits (ASCII digits, a literal dot) lives in `<what is before>-SNAPSHOT`, any other in its own directory.
+fn layout_version_dir(v: &str) -> String {
+	let c: Vec<char> = v.chars().collect();
+	let mut i = c.len();
+	let take_digits = |i: &mut usize, want: Option<usize>| -> bool {
+		let start = *i;
+		while *i > 0 && c[*i - 1].is_ascii_digit() && want.map_or(true, |w| start - *i < w) { *i -= 1; }
+		match want { Some(w) => start - *i == w, None => start > *i }
+	};
+	let lit = |i: &mut usize, ch: char| -> bool { if *i > 0 && c[*i - 1] == ch { *i -= 1; true } else { false } };
+	let ok = take_digits(&mut i, None) && lit(&mut i, '-') && take_digits(&mut i, Some(6)) && lit(&mut i, '.') && take_digits(&mut i, Some(8)) && lit(&mut i, '-');
+	if ok { format!("{}-SNAPSHOT", c[..i].iter().collect::<String>()) } else { v.to_string() }
+}
+
+fn gen_digits(rng: &mut Rng, len: usize) -> String { (0..len).map(|_| char::from(b'0' + rng.below(10) as u8)).collect() }
+/// one character of a digit run replaced by something that is not an ASCII digit (letters, separators, digits of other scripts, blanks)
+fn spoil(rng: &mut Rng, s: &str) -> String {
+	let mut c: Vec<char> = s.chars().collect();
+	if c.is_empty() { return s.to_string(); }
+	let k = rng.below(c.len());
+	c[k] = *rng.pick(&['x', '-', '.', '\u{ff12}', '\u{0663}', ' ', '\u{0967}', '/', ':', '+']);
+	c.into_iter().collect()
+}
+fn gen_snapshot_version(rng: &mut Rng) -> String {
+	let prefix = rng.pick(&["", "1.0", "1", "vineflower-1.10.0", "a-b", "1-2", "-", "1.0-20230713.025619-3", "\u{fc}", "x.y", "1.0-SNAPSHOT", "12345678.123456", "1.0-12345678.123456",
+		"\u{1f600}", "1.0-", "0"]).to_string();
+	let sep1 = if rng.chance(5, 6) { "-" } else { *rng.pick(&["", "_", "--", ".", "\u{2010}", "+"]) };
+	let n_date = if rng.chance(4, 5) { 8 } else { *rng.pick(&[0usize, 7, 9, 14]) };
+	let mut date = gen_digits(rng, n_date);
+	if rng.chance(1, 8) { date = spoil(rng, &date); }
+	let dot = if rng.chance(5, 6) { "." } else { *rng.pick(&["", ",", "-", "..", "x", "0", "\u{3002}", ":"]) };
+	let n_time = if rng.chance(4, 5) { 6 } else { *rng.pick(&[0usize, 5, 7, 8]) };
+	let mut time = gen_digits(rng, n_time);
+	if rng.chance(1, 8) { time = spoil(rng, &time); }
+	let sep2 = if rng.chance(5, 6) { "-" } else { *rng.pick(&["", "_", "--", ".", "x", "\u{2010}"]) };
+	let n_build = *rng.pick(&[0usize, 1, 1, 1, 2, 2, 3, 15, 40]);
+	let mut build = gen_digits(rng, n_build);
+	if rng.chance(1, 8) { build = spoil(rng, &build); }
+	let tail = if rng.chance(7, 8) { "" } else { *rng.pick(&["-", " ", "\n", "x", ".", "-SNAPSHOT", "-1", "-20230713.025619-1"]) };
+	format!("{prefix}{sep1}{date}{dot}{time}{sep2}{build}{tail}")
+}
+
+/// to_snapshot_version (private; reached as MavenCoord::base_version inside make_url): the version directory of the artifact's URL,
+/// cut out of make_url's answer for a coordinate with empty group and artifact in the repository "R"
+pub fn snapshot_cases(r: &mut Report, rng: &mut Rng, n: usize) {
+	let fixed = ["vineflower-1.10.0", "vineflower-1.10.0-20230713.025619-1", "vineflower-1.10.0-20230909.205406-282828123456790", "vineflower-1.10.0-20x30909.205406-28",
+		"vineflower-1.10.0-20230909.205406x28", "vineflower-1.10.0-202309090205406028", "vineflower-1.10.0-20230713.025619-", "vineflower-1.10.0-2023071.3025619-1",
+		"", "-", "--", "-1", "-.-1", "-12345678.123456-1", "12345678.123456-1", "1-12345678.123456-1-12345678.123456-1", "1.0-SNAPSHOT", "1-12345678.123456-1-SNAPSHOT"];
+	for i in 0..fixed.len() + n {
+		let v = if i < fixed.len() { fixed[i].to_string() } else { gen_snapshot_version(rng) };
+		let d = FoundDependency { resolver: Resolver { name: "n".into(), maven: "R".into() }, scope: DependencyScope::Compile,
+			coord: MavenCoord { group: String::new(), artifact: String::new(), version: v.clone(), classifier: None, type_: "jar".into() } };
+		let u = match guarded(move || d.make_url()) { Ok(u) => u, Err(p) => { r.violation(format!("FoundDependency::make_url panicked: {p}"), format!("property C19\nversion {v:?}\n")); continue; } };
+		let (pre, suf) = ("R///".to_string(), format!("/-{v}.jar"));
+		let dir = match u.strip_prefix(pre.as_str()).and_then(|x| x.strip_suffix(suf.as_str())) {
+			Some(x) => x.to_string(),
+			None => { r.violation("FoundDependency::make_url is not <repository>/<group>/<artifact>/<version directory>/<artifact>-<version>.<extension>".into(), format!("property C19\nversion {v:?} (empty group and artifact, repository \"R\", type jar)\nmake_url {u:?}\n")); continue; }
+		};
+		let want = layout_version_dir(&v);
+		if dir != want {
+			r.violation("the version directory in the URL is not the repository layout's: `X-<8 digits>.<6 digits>-<digits>` lives in `X-SNAPSHOT`, every other version in its own directory".into(),
+				format!("property C19\nversion {v:?}\nversion directory in make_url {dir:?}\nrepository layout {want:?}\n"));
+		}
+		if want != base_version(&v) { r.violation("harness: the two layout references disagree on a version".into(), format!("property C19\nversion {v:?}\n")); }
+		r.eval(&format!("snapshot-version {v}"), dir != v);
+		r.count(if want != v { "snapshot_version_timestamped" } else { "snapshot_version_plain" });
+		r.case("snapshot-version", format!("CSnapshot {} {}", gs(&v), gs(&dir)));
 	}
 }
